@@ -990,6 +990,51 @@ pub(crate) fn fault_shape_m5(at: usize, mode: u8) {
     fault_restart(sc, [None, None]);
 }
 
+/// Fault shape R (a fault during the start-up scan): a directory with a hinted merge output and a
+/// newer file holding an overwrite and a tombstone; the real `rebuild_storage` runs with the fault at
+/// its file-system call `at` (readdir, open of a hint file, open of a data file, reads): it must
+/// report an error - not panic, not return a partial index - and must not have changed the
+/// directory; a second, fault-free recovery then succeeds and every key reads as the reference map.
+pub(crate) fn fault_shape_r(at: usize) {
+    mfs::__preexisting(dslot(0));
+    mfs::__preexisting(hslot(0));
+    mfs::__preexisting(dslot(1));
+    let (va, vb, vc): (u8, u8, u8) = (kani::any(), kani::any(), kani::any());
+    let (p0, l0) = lay_data(dslot(0), 0, K[1], Some(vb));
+    lay_hint(hslot(0), 0, l0, p0, K[1]);
+    lay_data(dslot(1), 0, K[0], Some(va));
+    lay_data(dslot(1), 0, K[1], Some(vc));
+    lay_data(dslot(1), 0, K[0], None);
+    let m: Model = [None, Some(vc)];
+    let size0 = data_size();
+    arm_fault(at, 0, 3);
+    let r = rebuild_storage("d");
+    let hit = mfs::__fs().fail_hit;
+    kani::cover!(hit, "the fault was injected into the recovery");
+    if hit {
+        assert!(r.is_err(), "[C20] a file-system call failed during the start-up scan, yet the open reported success");
+    } else {
+        assert!(r.is_ok(), "[C20] an operation failed although no fault was injected into it");
+    }
+    std::mem::forget(r);
+    assert!(data_size() == size0 && mfs::__fs().n_write == 0, "[C20] a failed open changed the directory");
+    mfs::__fs().fail_at = usize::MAX;
+    let (keydir, stats, _a) = match rebuild_storage("d") {
+        Ok(x) => x,
+        Err(_) => {
+            assert!(false, "[C20] the directory cannot be opened after a failed open");
+            loop {}
+        }
+    };
+    let mut ki = 0;
+    while ki < 2 {
+        assert!(read_via(&keydir, K[ki]) == Some(m[ki]), "[C20] after a failed open a key reads differently");
+        ki += 1;
+    }
+    std::mem::forget(keydir);
+    std::mem::forget(stats);
+}
+
 /// Minimal fault shape M1 (quick tier): empty directory, every write rolls over; put a, put b, restart.
 /// Calls after the open: 0 write(a) 1 create 2 write(b) 3 create.
 pub(crate) fn fault_shape_m1(at: usize, mode: u8) {
